@@ -26,7 +26,7 @@ RULE = ("coarsen_bins: every valid bin table with 1 chromosome of length <=7 and
         "coarsen_cooler: corpus (D1 longer-last-bin tables, chromosomes shorter than k, empty cooler, empty rows at chunk edges, variable tables whose coarsening looks fixed, bin size 1, one-bin chromosomes) x k in {2,3,5,n+1} x chunksize in {1,2,7,nnz+1} (all 16 combinations for the first 7 corpus coolers, 2 chunk sizes per k for the others), "
         "seeded random coolers (fixed / variable / longer-last / variable-that-coarsens-to-fixed tables, 1-4 chromosomes, symmetric and square storage, 9 pixel patterns) x all four k x two chunk sizes, "
         "fixed-width tables of EVERY width 1..60 (thorough 1..200) x k in {2,3,5,7} at function level (chunk stream of CoolerCoarsener vs exact integer division) and end to end for widths 7,49,98,103,107,161,187,196 + random widths <= 2000 with >= 3 coarse bins per chromosome; nproc=2 and the CLI on a few, chains k1;k2 vs k1*k2 (fixed and variable tables), merge/coarsen interleavings, a second value column with agg max/min/sum incl. the D20 corpus (columns=[count,w], columns=[w]); "
-        "fixed parameter scenarios (output URI in a nested group, append into an existing file, same-file in/out, re-run onto an existing group, mode=w, nproc 2/3 with an uneven span count, CLI -p/--append/-a/-o URI, dtypes full/partial dict, lock=, float64 counts, weight bin column on the input, trailing empty rows, CoolerCoarsener batchsize 2/3); non-trivial = nnz>0 and at least 2 old bins; distinct by input hash")
+        "every level (copied bases included, k=1) of zoomify_cooler / `cooler zoomify --base-uri` files built from 1, 2 and 3 base coolers in every listing order (bases that are / are not multiples of each other) vs the block aggregation of its own base; fixed parameter scenarios (output URI in a nested group, append into an existing file, same-file in/out, re-run onto an existing group, mode=w, nproc 2/3 with an uneven span count, CLI -p/--append/-a/-o URI, dtypes full/partial dict, lock=, float64 counts, weight bin column on the input, trailing empty rows, CoolerCoarsener batchsize 2/3); non-trivial = nnz>0 and at least 2 old bins; distinct by input hash")
 TRUSTED = ["pandas groupby(sort=True).aggregate('sum') is modelled as the canonical aggregate (Model/Pixels.v) and observed through CoolerCoarsener",
            "create() stores the concatenation of the chunk stream (property C01/C02, observed here through the output cooler)",
            "multiprocess.Pool.map is order preserving (source-pattern assertion on coarsen_cooler + nproc=2 runs)"]
@@ -554,6 +554,10 @@ def chain_run(tmpdir, tag, case):
         cooler.coarsen_cooler(str(a), str(b), case["k1"], chunksize=case["chunksize"])
         cooler.coarsen_cooler(str(b), str(c), case["k2"], chunksize=case["chunksize"])
         cooler.coarsen_cooler(str(a), str(d), case["k1"] * case["k2"], chunksize=case["chunksize"])
+        mid = G.read_cooler(b)
+        eb, ep = G.oracle_coarsen(blocks, case["pixels"], case["k1"])
+        if mid["bins"] != eb or mid["pixels"] != ep:
+            raise AssertionError("intermediate level of the chain is not the block aggregation by k1")
         return G.read_cooler(c), G.read_cooler(d)
     st, res = G.guarded(go, 60)
     for p in (a, b, c, d):
@@ -957,6 +961,60 @@ def part_params(ctx):
     return len(SCENARIOS)
 
 
+# --------------- part 8: every level of every multi-resolution producer is a block aggregation of its base
+def part_multires(ctx):
+    """zoomify_cooler / `cooler zoomify --base-uri` with 1, 2 and 3 base coolers in every listing order (bases that
+    are / are not multiples of each other): every level of the file -- the copied base levels included (k = 1:
+    bins, pixels and indexes equal to that base input) -- must be the k-fold block aggregation its label claims.
+    The run / oracle / model helpers are those of harness/c09.py (same owner)."""
+    import c09
+    thorough = ctx.tier == "thorough"
+    rng = ctx.rng
+    tmpdir = ctx.tmp / "multires"
+    tmpdir.mkdir(exist_ok=True)
+    sizes = [120, 45, 10]
+    base = {r: c09.random_base(rng, sizes, r, True, weight=(r in (15, 20)), pattern=pat)
+            for r, pat in ((10, "dense"), (15, "band"), (20, "dense"), (30, "sparse"))}
+    plans = [((10,), [20, 30, 60]),
+             ((10, 15), [20, 30, 45]), ((10, 20), [40, 30, 60]),                       # not multiples / multiples of each other
+             ((10, 15, 20), [30, 40, 45, 60]), ((10, 20, 30), [60, 40, 90])]
+    cases = []
+    for bs, res in plans:
+        orders = list(itertools.permutations(bs))
+        if not thorough and len(bs) == 3 and bs == (10, 20, 30):
+            orders = [orders[1], orders[5]]
+        for order in orders:
+            r_ = list(res)
+            rng.shuffle(r_)
+            cases.append({"fn": "zoomify_cooler (every level)", "symmetric": True, "bases": [base[b] for b in order], "resolutions": r_,
+                          "chunksize": rng.choice([1, 7, 1000]), "note": "bases " + ",".join(map(str, order)), "aslist": True})
+    for order in ((15, 10, 20), (20, 15)):
+        cases.append({"fn": "cooler zoomify --base-uri (every level)", "symmetric": True, "bases": [base[b] for b in order],
+                      "resolutions": [60, 30] if 10 in order else [40, 45], "chunksize": rng.choice([7, 1000]),
+                      "note": "cli bases " + ",".join(map(str, order)), "via": "cli", "aslist": True})
+    model = C.coq_eval(c09.HDR, [c09.zoom_model_expr(c) for c in cases], tmpdir=ctx.tmp / "multiresv")
+    for i, (case, mo) in enumerate(zip(cases, model)):
+        ctx.case(case, nontrivial=len(case["bases"]) > 1, kind="multires:" + ("cli" if case.get("via") else "api") + f":{len(case['bases'])}bases")
+        st, res, srcs = c09.zoom_run(tmpdir, f"m{i}", case)
+        if mo is None or st != "ok":
+            ctx.compare("zoomify status", case, st, "ValueError" if mo is None else "ok")
+        else:
+            mlv = {}
+            for r, bins_, px_ in mo[1]:
+                mlv.setdefault(r, ([list(x) for x in bins_], [list(x) for x in px_]))
+            ctx.compare("levels of the file", case, res["listing"], sorted(f"/resolutions/{r}" for r in mlv))
+            for r, (mb, mp) in sorted(mlv.items()):
+                lv = res["levels"].get(f"/resolutions/{r}")
+                if lv is not None:
+                    # the model says which base the level derives from: coarsen(model) of that base by r/base (k = 1 for a base)
+                    ctx.compare(f"level {r} bins = coarsen(model) of its base", case, lv["bins"], mb)
+                    ctx.compare(f"level {r} pixels = coarsen(model) of its base", case, lv["pixels"], mp)
+        bad = c09.zoom_oracle(case, st, res, srcs)
+        if bad:
+            ctx.fail(case, bad, None)
+    return len(cases)
+
+
 # ----------------------------------------------------------------------- run
 def run(ctx):
     import time
@@ -964,7 +1022,7 @@ def run(ctx):
     scopes, times = {}, {}
     for name, fn in (("coarsen_bins_cases", part_bins), ("prune_cases", part_prune), ("api_runs", part_api),
                      ("width_sweep_runs", part_widths), ("chains", part_chain), ("merge_interleavings", part_merge),
-                     ("agg_runs", part_agg), ("param_scenarios", part_params)):
+                     ("agg_runs", part_agg), ("param_scenarios", part_params), ("multires_levels", part_multires)):
         t0 = time.time()
         scopes[name] = fn(ctx)
         times[name] = round(time.time() - t0, 1)
@@ -978,6 +1036,10 @@ def replay(ctx, case):
     tmpdir = ctx.tmp
     if fn == "param-scenario":
         return run_scenario(tmpdir, case["label"], SCENARIOS) is None
+    if fn.endswith("(every level)"):
+        import c09
+        st, res, srcs = c09.zoom_run(tmpdir, "replay", case)
+        return c09.zoom_oracle(case, st, res, srcs) is None
     if fn == "coarsen_bins":
         blocks = blocks_from_widths(case["widths"])
         st, res = G.guarded(lambda: impl_coarsen_bins(blocks, case["k"]), 20)
